@@ -7,8 +7,8 @@
    dt dw = 2 pi / L (theorem c13_conjugate_steps), so  exp(i w_j t_n) = zeta^((n - L/2)(j - L/2)).
    numpy.fft.fft / ifft are oracles assumed to compute the defining sums (fft_spec, ifft_spec).
    Round trips additionally assume orthogonality of the powers of zeta (true of exp(2 pi i / L)). *)
-From Coq Require Import ZArith List Bool Arith QArith Qcanon.
-From QV Require Import Base.Alg Base.Sums Base.Dft Model.C13 Proofs.C13 Proofs.C13gen.
+From Coq Require Import ZArith List Bool Arith QArith Qcanon Lia.
+From QV Require Import Base.Alg Base.Sums Base.Dft Model.C13 Proofs.C13 Proofs.C13gen Proofs.DftOrth.
 Import ListNotations.
 
 (* ---- the shifts ---- *)
@@ -130,6 +130,53 @@ Proof.
   now apply (upper_roundtrip N Npos zeta Hz orth).
 Qed.
 Print Assumptions c13_roundtrip_upper.
+
+(* ---- the orthogonality hypothesis of the round trips, discharged ---- *)
+(* In every ring without zero divisors in which zeta is a PRIMITIVE L-th root of unity the powers of zeta are orthogonal:
+   the round-trip theorems assume nothing about exp(2 pi i / L) beyond "C is an integral domain and exp(2 pi i a / L) <> 1
+   unless L divides a". *)
+Theorem c13_orthogonality_from_primitive_root : forall (R : StarRing) (L : nat) (zeta : R),
+  L <> 0%nat -> pow zeta L = r1 R ->
+  (forall x y : R, rmul R x y = r0 R -> x = r0 R \/ y = r0 R) ->
+  (forall a : Z, (a mod Z.of_nat L <> 0)%Z -> zpow L zeta a <> r1 R) ->
+  forall a : Z, (a mod Z.of_nat L <> 0)%Z -> sum L (fun k => zpow L zeta (a * Z.of_nat k)) = r0 R.
+Proof. intros R L zeta Lpos Hz Hdom Hprim. exact (orth_of_primitive L Lpos zeta Hz Hdom Hprim). Qed.
+Print Assumptions c13_orthogonality_from_primitive_root.
+
+Theorem c13_roundtrip_complete_in_domain : forall (R : StarRing) (L : nat) (zeta : R),
+  L <> 0%nat -> pow zeta L = r1 R ->
+  (forall x y : R, rmul R x y = r0 R -> x = r0 R \/ y = r0 R) ->
+  (forall a : Z, (a mod Z.of_nat L <> 0)%Z -> zpow L zeta a <> r1 R) ->
+  forall fft ifft, fft_spec L zeta fft -> ifft_spec L zeta ifft ->
+  forall (y : list R) d dw itp, length y = L -> rmul R (rmul R d (rmul R dw itp)) (natR L) = r1 R ->
+  ift_freq fft Repaired Complete dw itp (ft_time ifft Repaired Complete d y) = y /\
+  ft_freq ifft Repaired Complete dw itp (ift_time fft Repaired Complete d y) = y.
+Proof.
+  intros R L zeta Lpos Hz Hdom Hprim. apply (c13_roundtrip_complete R L zeta Lpos Hz).
+  exact (orth_of_primitive L Lpos zeta Hz Hdom Hprim).
+Qed.
+Print Assumptions c13_roundtrip_complete_in_domain.
+
+Theorem c13_roundtrip_upper_in_domain : forall (R : StarRing) (N : nat) (zeta : R),
+  N <> 0%nat -> pow zeta (2 * N) = r1 R ->
+  (forall x y : R, rmul R x y = r0 R -> x = r0 R \/ y = r0 R) ->
+  (forall a : Z, (a mod Z.of_nat (2 * N) <> 0)%Z -> zpow (2 * N) zeta a <> r1 R) ->
+  forall fft ifft, fft_spec (2 * N) zeta fft -> ifft_spec (2 * N) zeta ifft ->
+  forall v1 v2 (y : list R) d dw itp, length y = N ->
+  rmul R (rmul R d (rmul R dw itp)) (natR (2 * N)) = r1 R ->
+  ift_freq fft v2 UpperHalf dw itp (ft_time ifft v1 UpperHalf d y) = y.
+Proof.
+  intros R N zeta Npos Hz Hdom Hprim. apply (c13_roundtrip_upper R N zeta Npos Hz).
+  assert (H2 : (2 * N)%nat <> 0%nat) by lia.
+  exact (orth_of_primitive (2 * N) H2 zeta Hz Hdom Hprim).
+Qed.
+Print Assumptions c13_roundtrip_upper_in_domain.
+
+(* non-vacuity: the Gaussian integers with zeta = i, L = 4 meet all four hypotheses *)
+Example c13_example_gaussian_integers :
+  pow (gi ZR) 4 = r1 GZ /\ (forall x y : GZ, rmul GZ x y = r0 GZ -> x = r0 GZ \/ y = r0 GZ) /\
+  (forall a : Z, (a mod Z.of_nat 4 <> 0)%Z -> zpow 4 (gi ZR) a <> r1 GZ).
+Proof. split; [exact gi_pow4|]. split; [exact gz_domain | exact gi_primitive]. Qed.
 
 (* ---- the code as found, odd complete lengths ---- *)
 (* length 3, ring Q(w) with w a primitive cube root of unity, oracles = the defining sums, f = (1, 0, 0), all
